@@ -93,6 +93,7 @@ fn trig_arg(ctx: &mut Ctx) -> Dd {
 
 fn c16_sincos(ctx: &mut Ctx) {
     let x = trig_arg(ctx);
+    let x = forced_or(ctx, x);
     x.key(ctx);
     note_dd(ctx, "x", x);
     let Some(s) = call(ctx, "sin", x, inh::sin) else { return };
@@ -139,6 +140,7 @@ fn c16_sincos(ctx: &mut Ctx) {
 
 fn c16_tan(ctx: &mut Ctx) {
     let x = trig_arg(ctx);
+    let x = forced_or(ctx, x);
     x.key(ctx);
     note_dd(ctx, "x", x);
     let Some(t) = call(ctx, "tan", x, inh::tan) else { return };
@@ -174,16 +176,30 @@ fn c16_invalid(ctx: &mut Ctx) {
     ctx.set_nontrivial(true);
 }
 
+fn c16_sincos_grid(ctx: &mut Ctx) {
+    force_grid(ctx, 128.0, false);
+    c16_sincos(ctx);
+    ctx.set_nontrivial(true);
+}
+
+fn c16_tan_grid(ctx: &mut Ctx) {
+    force_grid(ctx, 128.0, false);
+    c16_tan(ctx);
+    ctx.set_nontrivial(true);
+}
+
 pub fn c16() -> Property {
     let g = |name, eval, quick, thorough| SubCheck { name, kind: Kind::Generated { words: 40, max_items: 0 }, eval, quick, thorough };
     Property {
         id: "C16",
-        rule: "valid x with |x| <= 2^20: uniform in [-2^20,2^20]/[-1000,1000]/[-8,8], log-uniform down to 2^-300, k*pi/4 + delta for |k| up to 2^22 with delta from 0 to 2^30 ulps (and the double-double nearest to k*pi/4), the four quadrants equally weighted, zero; every value of the non-finite pool for the invalid-in/invalid-out rule (complete). Reference: 384-bit Hp with pi to 544 bits. non-trivial = non-zero low word or special point; distinct = distinct argument bits",
+        rule: "valid x with |x| <= 2^20: uniform in [-2^20,2^20]/[-1000,1000]/[-8,8], log-uniform down to 2^-300, k*pi/4 + delta for |k| up to 2^22 with delta from 0 to 2^30 ulps (and the double-double nearest to k*pi/4), the four quadrants equally weighted, zero; every value of the non-finite pool for the invalid-in/invalid-out rule (complete). Reference: 384-bit Hp with pi to 544 bits. non-trivial = non-zero low word or special point; distinct = distinct argument bits Exact-grid sub-checks (complete enumerations): the generated sub-check evaluated at every argument of the form +-k/128 (or k/16, k/64, k/1024, integers, 10^k; see DESIGN 11.5) with a zero low word.",
         assumptions: vec!["reference functions: oracle::Hp at 384 bits, validated against mpmath vectors to 2^-300".into()],
         subchecks: vec![
             g("sin_cos", c16_sincos, 250_000, 8_000_000),
             g("tan", c16_tan, 250_000, 8_000_000),
             SubCheck { name: "invalid_arguments", kind: Kind::Enumerated { n: 25 }, eval: c16_invalid, quick: 0, thorough: 0 },
+            SubCheck { name: "sin_cos_grid", kind: Kind::Enumerated { n: 2 * 128 * 128 }, eval: c16_sincos_grid, quick: 0, thorough: 0 },
+            SubCheck { name: "tan_grid", kind: Kind::Enumerated { n: 2 * 128 * 128 }, eval: c16_tan_grid, quick: 0, thorough: 0 },
         ],
     }
 }
@@ -265,6 +281,7 @@ fn unit_arg(ctx: &mut Ctx) -> Dd {
 
 fn c17_asin_acos(ctx: &mut Ctx) {
     let x = unit_arg(ctx);
+    let x = forced_or(ctx, x);
     x.key(ctx);
     note_dd(ctx, "x", x);
     let Some(a) = call(ctx, "asin", x, inh::asin) else { return };
@@ -329,6 +346,7 @@ fn c17_atan(ctx: &mut Ctx) {
             Dd::new(if ctx.flag() { -0.0 } else { 0.0 }, 0.0)
         }
     };
+    let x = forced_or(ctx, x);
     x.key(ctx);
     note_dd(ctx, "x", x);
     let Some(r) = call(ctx, "atan", x, inh::atan) else { return };
@@ -455,17 +473,31 @@ fn c17_atan2_axes(ctx: &mut Ctx) {
     ctx.set_nontrivial(true);
 }
 
+fn c17_asin_acos_grid(ctx: &mut Ctx) {
+    force_grid(ctx, 1024.0, false);
+    c17_asin_acos(ctx);
+    ctx.set_nontrivial(true);
+}
+
+fn c17_atan_grid(ctx: &mut Ctx) {
+    force_grid(ctx, 128.0, false);
+    c17_atan(ctx);
+    ctx.set_nontrivial(true);
+}
+
 pub fn c17() -> Property {
     let g = |name, eval, quick, thorough| SubCheck { name, kind: Kind::Generated { words: 40, max_items: 0 }, eval, quick, thorough };
     Property {
         id: "C17",
-        rule: "asin/acos: x in [-1,1] uniform, ±(1-2^-j) then hi = ±1 with the distance in lo alone, around ±1/2, log-uniform to 2^-300, exact points ±1, ±1/2, ±0, and just outside (1 + tiny lo, larger); atan: every breakpoint 7/16, 11/16, 19/16, 39/16 (and 1/2, 1, 3/2) ± ulps/2^-j/10^6 ulps both signs, log-uniform 2^-300..2^60, zero; atan2: magnitudes 2^-30..2^30 all sign combinations, ratios across the breakpoints, related operands; all 72 axis combinations (complete). non-trivial = non-zero low word(s) or special point; distinct = distinct argument bits",
+        rule: "asin/acos: x in [-1,1] uniform, ±(1-2^-j) then hi = ±1 with the distance in lo alone, around ±1/2, log-uniform to 2^-300, exact points ±1, ±1/2, ±0, and just outside (1 + tiny lo, larger); atan: every breakpoint 7/16, 11/16, 19/16, 39/16 (and 1/2, 1, 3/2) ± ulps/2^-j/10^6 ulps both signs, log-uniform 2^-300..2^60, zero; atan2: magnitudes 2^-30..2^30 all sign combinations, ratios across the breakpoints, related operands; all 72 axis combinations (complete). non-trivial = non-zero low word(s) or special point; distinct = distinct argument bits Exact-grid sub-checks (complete enumerations): the generated sub-check evaluated at every argument of the form +-k/128 (or k/16, k/64, k/1024, integers, 10^k; see DESIGN 11.5) with a zero low word.",
         assumptions: vec!["reference functions: oracle::Hp at 384 bits, validated against mpmath vectors to 2^-300".into()],
         subchecks: vec![
             g("asin_acos", c17_asin_acos, 250_000, 8_000_000),
             g("atan", c17_atan, 250_000, 8_000_000),
             g("atan2", c17_atan2, 200_000, 6_000_000),
             SubCheck { name: "atan2_axes", kind: Kind::Enumerated { n: 72 }, eval: c17_atan2_axes, quick: 0, thorough: 0 },
+            SubCheck { name: "asin_acos_grid", kind: Kind::Enumerated { n: 2 * 1024 }, eval: c17_asin_acos_grid, quick: 0, thorough: 0 },
+            SubCheck { name: "atan_grid", kind: Kind::Enumerated { n: 2 * 128 * 64 }, eval: c17_atan_grid, quick: 0, thorough: 0 },
         ],
     }
 }
@@ -499,6 +531,7 @@ fn c18_forward(ctx: &mut Ctx) {
         }
     };
     let x = if x.big().abs() > Big::from_u64(600) { Dd::new(600.0 * x.hi.signum(), 0.0) } else { x };
+    let x = forced_or(ctx, x);
     x.key(ctx);
     note_dd(ctx, "x", x);
     let Some(s) = call(ctx, "sinh", x, inh::sinh) else { return };
@@ -742,12 +775,43 @@ fn c18_inverse_eval(ctx: &mut Ctx, which: u64, x: Dd) {
     ctx.set_nontrivial(x.lo != 0.0);
 }
 
+fn c18_forward_grid(ctx: &mut Ctx) {
+    // +-k/128 up to 40, then +-k/2 up to 600
+    let i = ctx.word();
+    let k = (i >> 1) + 1;
+    let v = if k <= 5120 { k as f64 / 128.0 } else { 40.0 + (k - 5120) as f64 / 2.0 };
+    ctx.forced = Some((if i & 1 == 1 { -v } else { v }, 0.0));
+    c18_forward(ctx);
+    ctx.set_nontrivial(true);
+}
+
+fn c18_inverse_grid(ctx: &mut Ctx) {
+    let i = ctx.word();
+    let (which, j) = (i % 3, i / 3);
+    let k = (j >> 1) + 1;
+    // asinh, acosh: k/128 up to 64 (acosh from 1); atanh: k/1024 below 1
+    let v = match which {
+        0 => k as f64 / 128.0,
+        1 => 1.0 + k as f64 / 128.0,
+        _ => (k % 1024).max(1) as f64 / 1024.0,
+    };
+    let v = if j & 1 == 1 && which != 1 { -v } else { v };
+    ctx.label("arg:exact-grid");
+    c18_inverse_eval(ctx, which, Dd::new(v, 0.0));
+    ctx.set_nontrivial(true);
+}
+
 pub fn c18() -> Property {
     let g = |name, eval, quick, thorough| SubCheck { name, kind: Kind::Generated { words: 40, max_items: 0 }, eval, quick, thorough };
     Property {
         id: "C18",
-        rule: "sinh/cosh/tanh: both signs, log-uniform 2^-60..600, uniform in [-600,600]/[-40,40]/[-1,1], pivots ±600, ±1/4, 1/2, 22, 354, zero; asinh: both signs log-uniform 2^-60..2^60, pivots ±1, ±1e10, ±1e16; acosh: 1 < x <= 2^60 with a geometric approach to 1 (finally hi = 1 with the distance in lo alone), x = 1, x < 1; atanh: log-uniform, uniform up to 1-2^-10, approach to the limit, |x| >= 1. Reference: cancellation-free 384-bit forms. non-trivial = non-zero low word or special point; distinct = distinct (function, argument bits)",
+        rule: "sinh/cosh/tanh: both signs, log-uniform 2^-60..600, uniform in [-600,600]/[-40,40]/[-1,1], pivots ±600, ±1/4, 1/2, 22, 354, zero; asinh: both signs log-uniform 2^-60..2^60, pivots ±1, ±1e10, ±1e16; acosh: 1 < x <= 2^60 with a geometric approach to 1 (finally hi = 1 with the distance in lo alone), x = 1, x < 1; atanh: log-uniform, uniform up to 1-2^-10, approach to the limit, |x| >= 1. Reference: cancellation-free 384-bit forms. non-trivial = non-zero low word or special point; distinct = distinct (function, argument bits) Exact-grid sub-checks (complete enumerations): the generated sub-check evaluated at every argument of the form +-k/128 (or k/16, k/64, k/1024, integers, 10^k; see DESIGN 11.5) with a zero low word.",
         assumptions: vec!["reference functions: oracle::Hp at 384 bits, validated against mpmath vectors to 2^-300".into()],
-        subchecks: vec![g("sinh_cosh_tanh", c18_forward, 200_000, 6_000_000), g("asinh_acosh_atanh", c18_inverse, 300_000, 8_000_000)],
+        subchecks: vec![
+            g("sinh_cosh_tanh", c18_forward, 200_000, 6_000_000),
+            g("asinh_acosh_atanh", c18_inverse, 300_000, 8_000_000),
+            SubCheck { name: "forward_grid", kind: Kind::Enumerated { n: 2 * (5120 + 1120) }, eval: c18_forward_grid, quick: 0, thorough: 0 },
+            SubCheck { name: "inverse_grid", kind: Kind::Enumerated { n: 3 * 2 * 128 * 64 }, eval: c18_inverse_grid, quick: 0, thorough: 0 },
+        ],
     }
 }
